@@ -507,6 +507,76 @@ pub fn gen_large(rng: &mut Rng, n: usize, max_support: usize, cyclic: usize, dep
     }
 }
 
+/// Mid-size ADF: a layered core that the grounded semantics decides completely (as in `gen_large`) plus a block
+/// of `block` statements with random conditions over the block (and a few core statements), most of which stay
+/// undecided. Conditions mention at most 8 statements, so the support-bounded oracle is exact, and the complete /
+/// two-valued / stable models are found among the refinements of the grounded interpretation.
+pub fn gen_mid(rng: &mut Rng, n: usize, block: usize) -> GenAdf {
+    let block = block.min(n);
+    let order = rng.perm(n);
+    let core = n - block;
+    let members: Vec<usize> = order[core..].to_vec();
+    let labels: Vec<String> = {
+        let mode = rng.below(3);
+        (0..n)
+            .map(|i| match mode {
+                0 => format!("m{}", i),
+                1 => format!("{}", 100 + i * 13 % 97 + 97 * (i / 97)),
+                _ => format!("{}{}", ["b", "or", "y", "imp", "s", "ac"][i % 6], i),
+            })
+            .collect()
+    };
+    let mut ac = vec![F::Top; n];
+    for k in 0..core {
+        let s = order[k];
+        if k == 0 || rng.chance(1, 8) {
+            ac[s] = if rng.bool() { F::Top } else { F::Bot };
+        } else {
+            let lo = k.saturating_sub(10);
+            let want = rng.range(1, 5.min(k - lo).max(1));
+            let mut atoms: Vec<usize> = Vec::new();
+            while atoms.len() < want {
+                let a = order[rng.range(lo, k - 1)];
+                if !atoms.contains(&a) {
+                    atoms.push(a);
+                }
+            }
+            let d = rng.range(1, 4);
+            ac[s] = F::random(rng, &atoms, d);
+        }
+    }
+    for (k, s) in members.iter().enumerate() {
+        let mut atoms = vec![*s];
+        for _ in 0..rng.range(1, 3) {
+            let o = members[rng.below(block)];
+            if !atoms.contains(&o) {
+                atoms.push(o);
+            }
+        }
+        for _ in 0..rng.range(0, 2) {
+            if core > 0 {
+                let c = order[rng.below(core)];
+                if !atoms.contains(&c) {
+                    atoms.push(c);
+                }
+            }
+        }
+        let other = if block >= 2 { members[(k + 1 + rng.below(block - 1)) % block] } else { *s };
+        let d = rng.range(1, 3);
+        let r = F::random(rng, &atoms, d);
+        ac[*s] = match rng.below(8) {
+            0 => F::Atom(*s),
+            1 => F::not(F::Atom(other)),
+            2 => F::and(F::Atom(*s), r),
+            3 => F::or(F::not(F::Atom(other)), F::and(F::Atom(*s), r)),
+            4 => F::Atom(other),
+            5 => F::xor(F::Atom(other), r),
+            _ => r,
+        };
+    }
+    GenAdf { n, labels, ac, family: "mid" }
+}
+
 #[cfg(test)]
 mod test {
     use super::*;
